@@ -44,7 +44,8 @@ def forms(value: str, which=("atom", "quoted", "literal", "literal+")):
     return out
 
 
-MAILBOXES = ["INBOX", "inbox", "InBoX", "inboxes", "Inbox2", "a/b", "with space", 'q"uote', "back\\slash", "x+y", "lit\r\neral", "\xe9t\xe9", "inbox/sub"]
+MAILBOXES = ["INBOX", "inbox", "InBoX", "inboxes", "Inbox2", "a/b", "with space", 'q"uote', "back\\slash", "x+y", "lit\r\neral", "\xe9t\xe9", "inbox/sub",
+             'e\\"q', "b\\\\s"]  # octets that look like quoted-string escapes: a literal must keep them as they are
 SETS = [("1", [1]), ("*", ["*"]), ("2:4", [(2, 4)]), ("4:2", [(4, 2)]), ("1,3:5,*", [1, (3, 5), "*"]), ("*:1", [("*", 1)]), ("7,7", [7, 7]),
         ("10:*", [(10, "*")])]
 FLAGLISTS = [("()", []), ("(\\Seen)", ["\\Seen"]), ("(\\Answered \\Flagged $Forwarded kw-1)", ["\\Answered", "\\Flagged", "$Forwarded", "kw-1"]),
